@@ -16,7 +16,7 @@ import (
 )
 
 func init() {
-	probeNames["C18"] = []string{"open_ok", "open_locked_rejected", "open_invalid_options", "open_damaged_headers", "open_truncated_file", "open_init_write_fault", "open_read_fault", "open_updmaxsize_fault", "close", "wait_lock", "two_waiters", "two_waiters_failing_first"}
+	probeNames["C18"] = []string{"open_ok", "open_locked_rejected", "open_invalid_options", "open_damaged_headers", "open_truncated_file", "open_init_write_fault", "open_read_fault", "open_updmaxsize_fault", "close", "wait_lock", "two_waiters", "two_waiters_failing_first", "open_left_by_panic"}
 	register(&PropDef{
 		ID: "C18", Level: "exploration", QuickSec: 40, ThoroSec: 600,
 		Rule: "each run = one seeded sequence (10-40 steps) of open / failing open / close on ONE path with two handles, on the real file system with the real flock: failing opens are produced by invalid options (rejected before the file is touched), both headers damaged, file truncated below the header size, an injected WriteAt failure during file initialisation, an injected ReadAt failure while reading the headers, and an injected WriteAt failure inside the FlagUpdMaxSize maintenance transaction (all of these fail AFTER the path lock was taken). One-bit lock model: Open succeeds iff the model says the path is free; while a handle is open every other Open without the wait flag fails with an error of kind LockFailed; after every Close and after every failed Open an immediate Open succeeds (never LockFailed); with FlagWaitLock a second goroutine's Open returns only after the holder's Close was invoked (ordered by event sequence numbers). Non-trivial = sequence containing at least one failing open that failed after taking the lock; distinct = hash of the step sequence.",
@@ -105,7 +105,7 @@ func c18Direct(c *Case) *Result {
 			if i >= n {
 				break
 			}
-			op = Op{K: []string{"open", "open", "close", "close", "badopts", "damage", "truncate", "initfault", "readfault", "updfault", "waitlock", "waitlock2"}[rng.Intn(12)], A: rng.Intn(2), B: rng.Intn(1 << 16)}
+			op = Op{K: []string{"open", "open", "close", "close", "badopts", "damage", "truncate", "initfault", "readfault", "updfault", "waitlock", "waitlock2", "panicobs"}[rng.Intn(13)], A: rng.Intn(2), B: rng.Intn(1 << 16)}
 		}
 		rec = append(rec, op)
 		h := op.A % 2
@@ -175,6 +175,37 @@ func c18Direct(c *Case) *Result {
 					handles[h].Close()
 					handles[h], holder = nil, -1
 				}
+			}
+		case "panicobs":
+			// Open left by a panic (raised by the application's Observer.OnOpen):
+			// the path lock must be released all the same
+			if holder >= 0 || !exists || op.B%6 != 0 {
+				rec = rec[:len(rec)-1]
+				continue
+			}
+			o := opts()
+			o.Observer = panicObserver{}
+			panicked := false
+			func() {
+				defer func() {
+					if r := recover(); r != nil {
+						panicked = true
+					}
+				}()
+				f, err := txfile.Open(path, 0o600, o)
+				if err == nil {
+					f.Close()
+				}
+			}()
+			if !panicked {
+				fail("harness", "the panicking observer was not called")
+				break
+			}
+			nontrivial = true
+			res.Probes["open_left_by_panic"]++
+			if mustOpen(h, "an Open that was left by a panic of the application's Observer.OnOpen") {
+				handles[h].Close()
+				handles[h], holder = nil, -1
 			}
 		case "damage", "truncate", "readfault", "updfault":
 			if holder >= 0 || !exists {
@@ -500,3 +531,10 @@ func goidC18() int64 {
 	}
 	return id
 }
+
+// panicObserver panics when the file reports that it was opened.
+type panicObserver struct{}
+
+func (panicObserver) OnOpen(txfile.FileStats)                    { panic("observer: OnOpen failed") }
+func (panicObserver) OnTxBegin(bool)                             {}
+func (panicObserver) OnTxClose(txfile.FileStats, txfile.TxStats) {}
